@@ -102,7 +102,7 @@ def gen_method(r, cfg, spec=None, N=None):
     has_alg = bool(spec and spec.names("algebraic"))
     discrete = bool(spec and spec.nxt)
     pool = cfg.get("methods", ["SingleShooting", "MultipleShooting", "DirectCollocation"])
-    if has_alg:
+    if has_alg and not cfg.get("builtin_integrators", True):
         pool = [m for m in pool if m == "DirectCollocation"] or ["DirectCollocation"]
     if discrete:
         pool = [m for m in pool if m != "DirectCollocation"] or ["MultipleShooting"]
@@ -113,6 +113,10 @@ def gen_method(r, cfg, spec=None, N=None):
         m["scheme"] = pick(r, ["radau", "legendre"])
     else:
         m["intg"] = pick(r, ["rk", "rk", "expl_euler"])
+        if cfg.get("builtin_integrators", True) and not discrete and r.random() < 0.15:
+            m["intg"] = pick(r, ["cvodes", "collocation", "idas"])
+        if has_alg:
+            m["intg"] = pick(r, ["collocation", "idas"])  # explicit schemes cannot carry algebraic variables
     if r.random() < cfg.get("p_grid", 0.5):
         m["grid"] = gen_grid(r, cfg)
     return m
@@ -187,7 +191,7 @@ def guess_targets(spec):
     """[(target, sym-or-None)] that may receive an initial guess"""
     out = []
     for s in spec.syms:
-        if s["kind"] in ("state", "control", "variable", "algebraic"):
+        if s["kind"] in ("state", "hstate", "control", "variable", "algebraic"):
             out.append((s["name"], s))
     if spec.T[0] == "free":
         out.append(("T", None))
@@ -227,7 +231,7 @@ def gen_guess(r, target, s, N, cfg):
             return ["expr", ["vec"] + [gen_time_expr(r) for _ in range(rows)]]
         return ["expr", gen_time_expr(r)]
     # arr: states n x (N+1); controls / per-interval variables n x N; control+ variables n x (N+1)
-    if kind == "state":
+    if kind in ("state", "hstate"):
         ncol = N + 1
     elif kind == "variable" and s.get("include_last"):
         ncol = N + 1
@@ -380,12 +384,15 @@ def gen_base(r, cfg):
             decl("variable", grid="control", include_last=True)
     method = gen_method(r, cfg, N=N)
     cfg = dict(cfg, _cls_hint=method["cls"])
-    if cfg.get("dae", True) and method["cls"] == "DirectCollocation" and r.random() < 0.25:
+    if cfg.get("dae", True) and (method["cls"] == "DirectCollocation" or method.get("intg") in ("collocation", "idas")) and r.random() < 0.3:
         decl("algebraic")
 
     # dynamics
-    discrete = cfg.get("discrete", True) and method["cls"] != "DirectCollocation" and r.random() < 0.12
-    sig = atoms(sp, ("state", "control", "algebraic", "parameter", "variable"), allow_t=cfg.get("time_in_ode", True) and not discrete)
+    discrete = cfg.get("discrete", True) and method["cls"] != "DirectCollocation" and method.get("intg") in (None, "rk", "expl_euler") \
+        and not sp.names("algebraic") and r.random() < 0.12
+    if cfg.get("higher_order_controls", True) and not discrete and r.random() < 0.12:
+        emit({"op": "sym", "name": "h1", "kind": "hstate"})  # ocp.control(order=1): piecewise linear, a state with a hidden rate control
+    sig = atoms(sp, ("state", "hstate", "control", "algebraic", "parameter", "variable"), allow_t=cfg.get("time_in_ode", True) and not discrete)
     for s in sp.names("state"):
         rows = sp.sym(s).get("rows", 1)
         e = gen_sum(r, sig) if rows == 1 else ["vec"] + [gen_sum(r, sig) for _ in range(rows)]
@@ -436,7 +443,7 @@ def gen_base(r, cfg):
 def gen_constraints(r, sp, cfg, n, first=False):
     out = []
     states = atoms(sp, ("state",), allow_t=False)
-    ctrls = atoms(sp, ("control",), allow_t=False)
+    ctrls = atoms(sp, ("control", "hstate"), allow_t=False)
     gpar = [["s", p] for p in sp.names("parameter") if sp.sym(p).get("grid", "") == "" and sp.sym(p).get("rows", 1) * sp.sym(p).get("cols", 1) == 1 and sp.T != ["par", p]]
     cpar = atoms(sp, ("parameter:control",), allow_t=False)
     gvar = [["s", v] for v in sp.names("variable") if sp.sym(v).get("grid", "") == ""]
@@ -503,7 +510,7 @@ def gen_constraints(r, sp, cfg, n, first=False):
 
 def gen_objectives(r, sp, cfg, n):
     out = []
-    sig = atoms(sp, ("state", "control", "variable:control", "parameter:control"), allow_t=True)
+    sig = atoms(sp, ("state", "hstate", "control", "variable:control", "parameter:control"), allow_t=True)
     sigs = atoms(sp, ("state",), allow_t=False)
     gvar = [["s", v] for v in sp.names("variable") if sp.sym(v).get("grid", "") == ""]
     npar = atoms(sp, ("parameter:control",), allow_t=False, node_only=True)
@@ -524,6 +531,8 @@ def gen_objectives(r, sp, cfg, n):
             kinds.append((1, "t0"))
         k = wpick(r, kinds)
         if k == "int":
+            # (integral(expr, grid='control') is not generated: with Geometric / DenseEdges grids rockit's own time vector
+            #  is a row and the sum raises a dimension mismatch for the evolved and the fresh OCP alike -- C05 territory)
             e = ["int", ["sq", gen_sum(r, sig, r.randint(1, 2))]]
         elif k == "tf":
             e = ["at_tf", ["sq", pick(r, sigs)]]
